@@ -286,7 +286,7 @@ def _worker(job):
                  '%s [%s %s]\n%s' % (e, origin, where, traceback.format_exc()[-3000:]))
     r = ctx.result()
     r['wall'] = time.time() - t0
-    _cov_save(force=idx >= int(os.environ.get('VERIF_NJOBS', '0')) - 200)
+    _cov_save(force=True)    # after every shard: a worker's last lines are not lost
     return idx, r
 
 
